@@ -54,6 +54,7 @@ class Server(object):
         self.zsh_ready = False
         self.chunks = rng_chunks
         self.pending_reply = None  # (due time, text)
+        self.after_ssh = None
 
     def emit(self, t):
         self.out += t; self.since += t; self.all_out += t
@@ -101,6 +102,10 @@ class Server(object):
             rep += ('0123456789abcdef' * (n // 16 + 1))[:n] + '\r\n'
         elif line == 'exit':
             self.closed_next = True
+        elif line.startswith('ssh ') and self.after_ssh is not None:
+            # a hop to the next host: the dialogue of the second login follows (login(..., spawn_local_ssh=False))
+            self.steps, self.k, self.after_ssh, self.shell, self.zsh_ready = [list(x) for x in self.after_ssh], 0, None, None, False
+            return rep
         else:
             rep += 'sh: %s: not found\r\n' % line.split(' ')[0]
         return rep + sh['prompt']
@@ -117,6 +122,9 @@ class Server(object):
                 line = self.take_line()
                 if line is not None:
                     rep = self.shell_line(line)
+                    if self.shell is None:
+                        self.emit(rep); progressed = True
+                        continue
                     if getattr(self, 'closed_next', False):
                         self.closed = True
                         break
@@ -243,6 +251,70 @@ class TestPxssh(PX.pxssh):
         return not self.closed and not self.srv.closed
 
 
+def one_login(p, srv, clock, case, spawned, out):
+    o = case['opts']
+    kw = dict(login_timeout=case.get('login_timeout', 3), auto_prompt_reset=o['reset'], sync_original_prompt=o['sync'],
+              sync_multiplier=case.get('mult', 0.5), terminal_type=TERM, quiet=o.get('quiet', True))
+    if o.get('port') is not None:
+        kw['port'] = o['port']
+    if not o.get('local', True):
+        kw['spawn_local_ssh'] = False
+    if o.get('original_prompt'):
+        kw['original_prompt'] = o['original_prompt']
+    t0 = clock.now
+    try:
+        r = p.login('testhost', 'alice', PASSWORD, **kw)
+        out['res'] = 'ok' if r is True else 'ret:%r' % (r,)
+    except PX.ExceptionPxssh as e:
+        out['res'] = 'pxssh'; out['msg'] = str(e)[:80]
+    except EOF:
+        out['res'] = 'EOF'
+    except TIMEOUT:
+        out['res'] = 'TIMEOUT'
+    except Deadlock:
+        out['res'] = 'DEADLOCK'
+    except Exception as e:      # noqa
+        out['res'] = 'EXC:' + type(e).__name__; out['msg'] = repr(e)[:200]
+    out['elapsed'] = round(clock.now - t0, 4)
+    out['closed'] = bool(p.closed)
+    out['expects'] = [[n, a] for n, a, _ in p.rec_expect]
+    out['reads'] = list(p.rec_reads)
+    out['sent'] = [list(x) for x in p.rec_sent]
+    out['lines'] = [list(x) for x in srv.lines]
+    out['shell'] = dict(srv.shell) if srv.shell else None
+    out['spawned'] = spawned[:]
+    out['server_k'] = srv.k
+    # after a successful login with the unique prompt: prompt() must delimit each command's output
+    cmds = []
+    if out['res'] == 'ok' and o['reset']:
+        b0 = p.buffer
+        out['pending_at_login'] = b0.decode('latin-1') if isinstance(b0, bytes) else b0
+        p.prompt_reads = []
+        todo = []
+        for c in case.get('commands', []):
+            if isinstance(c, list):           # ['pair', c1, c2]: both lines typed ahead, then two prompt() calls
+                todo.append((c[1], c[1] + '\n' + c[2])); todo.append((c[2], None))
+            else:
+                todo.append((c, c))
+        for c, tosend in todo:
+            rec = dict(cmd=c)
+            try:
+                if tosend is not None:
+                    p.sendline(tosend)
+                ok = p.prompt(timeout=case.get('prompt_timeout', 5))
+                rec['ok'] = ok
+                b = p.before
+                rec['before'] = b.decode('latin-1') if isinstance(b, bytes) else b
+            except EOF:
+                rec['ok'] = 'EOF'
+            except Exception as e:   # noqa
+                rec['ok'] = 'EXC:' + type(e).__name__
+            cmds.append(rec)
+        out['prompt_reads'] = list(p.prompt_reads)
+    out['cmds'] = cmds
+    return out
+
+
 def run_case(case):
     """case: steps, opts(sync, reset, quiet, port, key, local), timeouts, chunks, commands (after login)"""
     clock = Clock()
@@ -257,66 +329,16 @@ def run_case(case):
         enc = case.get('encoding')
         p = TestPxssh(timeout=case.get('timeout', 2), encoding=enc, options=case.get('ssh_options', {}))
         p.attach(srv, clock)
-        o = case['opts']
-        kw = dict(login_timeout=case.get('login_timeout', 3), auto_prompt_reset=o['reset'], sync_original_prompt=o['sync'],
-                  sync_multiplier=case.get('mult', 0.5), terminal_type=TERM, quiet=o.get('quiet', True))
-        if o.get('port') is not None:
-            kw['port'] = o['port']
-        if not o.get('local', True):
-            kw['spawn_local_ssh'] = False
-        if o.get('original_prompt'):
-            kw['original_prompt'] = o['original_prompt']
-        t0 = clock.now
-        try:
-            r = p.login('testhost', 'alice', PASSWORD, **kw)
-            out['res'] = 'ok' if r is True else 'ret:%r' % (r,)
-        except PX.ExceptionPxssh as e:
-            out['res'] = 'pxssh'; out['msg'] = str(e)[:80]
-        except EOF:
-            out['res'] = 'EOF'
-        except TIMEOUT:
-            out['res'] = 'TIMEOUT'
-        except Deadlock:
-            out['res'] = 'DEADLOCK'
-        except Exception as e:      # noqa
-            out['res'] = 'EXC:' + type(e).__name__; out['msg'] = repr(e)[:200]
-        out['elapsed'] = round(clock.now - t0, 4)
-        out['closed'] = bool(p.closed)
-        out['expects'] = [[n, a] for n, a, _ in p.rec_expect]
-        out['reads'] = list(p.rec_reads)
-        out['sent'] = [list(x) for x in p.rec_sent]
-        out['lines'] = [list(x) for x in srv.lines]
-        out['shell'] = dict(srv.shell) if srv.shell else None
-        out['spawned'] = spawned[:]
-        out['server_k'] = srv.k
-        # after a successful login with the unique prompt: prompt() must delimit each command's output
-        cmds = []
-        if out['res'] == 'ok' and o['reset']:
-            b0 = p.buffer
-            out['pending_at_login'] = b0.decode('latin-1') if isinstance(b0, bytes) else b0
-            p.prompt_reads = []
-            todo = []
-            for c in case.get('commands', []):
-                if isinstance(c, list):           # ['pair', c1, c2]: both lines typed ahead, then two prompt() calls
-                    todo.append((c[1], c[1] + '\n' + c[2])); todo.append((c[2], None))
-                else:
-                    todo.append((c, c))
-            for c, tosend in todo:
-                rec = dict(cmd=c)
-                try:
-                    if tosend is not None:
-                        p.sendline(tosend)
-                    ok = p.prompt(timeout=case.get('prompt_timeout', 5))
-                    rec['ok'] = ok
-                    b = p.before
-                    rec['before'] = b.decode('latin-1') if isinstance(b, bytes) else b
-                except EOF:
-                    rec['ok'] = 'EOF'
-                except Exception as e:   # noqa
-                    rec['ok'] = 'EXC:' + type(e).__name__
-                cmds.append(rec)
-            out['prompt_reads'] = list(p.prompt_reads)
-        out['cmds'] = cmds
+        one_login(p, srv, clock, case, spawned, out)
+        c2 = case.get('then')
+        if c2 and out['res'] == 'ok' and not p.closed and srv.shell is not None:
+            # a second login on the same object, through the shell of the first (the documented jump-host use)
+            srv.after_ssh = c2['steps']
+            p.rec_expect, p.rec_reads, p.rec_sent, p.seen, srv.lines = [], [], [], '', []
+            p.prompt_reads = None
+            out2 = {}
+            one_login(p, srv, clock, c2, spawned, out2)
+            out['then'] = out2
         return out
     finally:
         EXM.time, PX.time, PS.spawn._spawn = saved
@@ -495,11 +517,23 @@ CORPUS = [
     dict(items=['password'], shell=['shell', 'stuck', '$ ', {}], opts=dict(sync=True, reset=True)),
     dict(items=['password', 'banner'], shell=['shell', 'sh', '> ', {'delay': 0.3}], opts=dict(sync=True, reset=True), commands=['echo slow']),
     dict(items=['password', 'pause', 'exit'], shell=None, opts=dict(sync=False, reset=False)),
+    # two logins on one object (jump host): what the first leaves behind must not weaken what the second guarantees
+    dict(items=['password'], shell=['shell', 'sh', 'jump$ ', {}], opts=dict(sync=True, reset=False),
+         then=dict(items=['password'], shell=['shell', 'stuck', 'r$ ', {}], opts=dict(sync=True, reset=True, local=False))),
+    dict(items=['password'], shell=['shell', 'sh', 'jump$ ', {}], opts=dict(sync=True, reset=False),
+         then=dict(items=['password'], shell=['shell', 'sh', 'inner$ ', {}], opts=dict(sync=True, reset=True, local=False), commands=['echo price: $5 #1', 'big 300'])),
+    dict(items=['password'], shell=['shell', 'sh', 'jump$ ', {}], opts=dict(sync=True, reset=True), commands=['echo on jump'],
+         then=dict(items=['hostkey', 'password', 'denied', 'password'], shell=None, opts=dict(sync=True, reset=True, local=False))),
+    dict(items=[], shell=['shell', 'csh', 'j% ', {}], opts=dict(sync=False, reset=True),
+         then=dict(items=['banner'], shell=['shell', 'zsh', 'z% ', {}], opts=dict(sync=False, reset=True, local=False), commands=['echo $x #y'])),
 ]
 
 
 def finish_case(c, rng):
     c = copy.deepcopy(c)
+    if c.get('then') and 'items' in c['then']:
+        c['then'] = finish_case(c['then'], rng)
+        c['then']['chunks'] = []
     c['steps'] = build(c.pop('items'), c.pop('shell'))
     c.setdefault('chunks', [rng.choice([1, 2, 3, 7, 50, 2000]) for _ in range(rng.randrange(0, 30))])
     c.setdefault('mult', rng.choice([0.2, 0.5, 1]))
@@ -508,7 +542,7 @@ def finish_case(c, rng):
     return c
 
 
-def rand_case(rng):
+def rand_case(rng, depth=0):
     n = rng.randrange(0, 6)
     pool = ['hostkey', 'password', 'passphrase', 'denied', 'termtype', 'banner', 'plainbanner', 'closed', 'silence', 'pause', 'exit']
     w = [2, 5, 1, 2, 1, 2, 2, 1, 1, 2, 1]
@@ -536,7 +570,12 @@ def rand_case(rng):
                 local=rng.random() < 0.85)
     cmds = [rng.choice(['echo a', 'echo hello world', 'echo $x #y', 'big 300', 'big 5000', 'echo [PEXPECT', 'echo ',
                         ['pair', 'echo one', 'big 600'], ['pair', 'big 250', 'echo z']]) for _ in range(rng.randrange(0, 4))]
-    return finish_case(dict(items=items, shell=shell, opts=opts, commands=cmds, encoding=rng.choice([None, None, 'utf-8'])), rng)
+    c = dict(items=items, shell=shell, opts=opts, commands=cmds, encoding=rng.choice([None, None, 'utf-8']))
+    if depth == 0 and shell and shell[1] != 'stuck' and rng.random() < 0.2:
+        c['then'] = rand_case(rng, 1)
+        c['then']['opts']['local'] = False
+        c['then'].pop('encoding', None)
+    return c if depth else finish_case(c, rng)
 
 
 def exhaustive(depth, rng):
@@ -719,7 +758,13 @@ def stage_command_line(ctx):
 
 def evaluate(case):
     out = run_case(case)
-    return out, oracle(case, out)
+    orc = oracle(case, out)
+    if orc is None and 'then' in out:
+        o2 = oracle(case['then'], out['then'])
+        if o2:
+            orc = (o2[0] if o2[0] == KNOWN_SILENT else 'second-login/' + o2[0],
+                   'second login on the same object (the first: auto_prompt_reset=%s, sync_original_prompt=%s): %s' % (case['opts']['reset'], case['opts']['sync'], o2[1]))
+    return out, orc
 
 
 def run(ctx):
@@ -829,6 +874,7 @@ def run(ctx):
             else:
                 ctx.notes.append('unreproduced real-process anomaly: ' + bad)
     ctx.cov['result_histogram'] = dict(hist)
+    ctx.cov['second_logins_on_same_object'] = dict(collections.Counter(o['then']['res'] for o in outs if 'then' in o))
     ctx.cov['exhaustive_part'] = dict(cases=len(ex), depth=2 if ctx.quick() else 3,
                                       note='all dialogues over {hostkey, password, passphrase, denied, termtype, banner, closed, pause} up to depth x {shell, silence, exit} x 4 option sets')
     ctx.cov['real_process_runs'] = len(REAL)
